@@ -41,9 +41,9 @@ def universes(size):
     U["str"] = {
         "values": [None, "ab", "abc", ""] + (["zab"] if big else []),
         "refs": {"len": lens,
-                 "alphabet": [("alphabet", (a,)) for a in (["ab", "abc", ""] + (["z", "ba"] if big else []))],
+                 "alphabet": [("alphabet", (a,)) for a in (["ab", "abc", "", "ab{}%"] + (["z", "ba"] if big else []))],
                  "contains": [("contains", (c,)) for c in (["a", "ab", "z"] + (["", "abc"] if big else []))],
-                 "regex": [("regex", (r,)) for r in (["a+", "^ab$", "z"] + (["", "^a.c$", "(" ] if big else []))]},
+                 "regex": [("regex", (r,)) for r in (["a+", "^ab$", "z", "^a{1}b{1,2}$"] + (["", "^a.c$", "(" ] if big else []))]},
     }
     # a min-only and a max-only form are two different refinements of the same method: both orders must be rejected alike
     U["str"]["refs"]["len_second_form"] = [("len", (1, ...)), ("len", (..., 3)), ("len", (2,))]
